@@ -31,6 +31,14 @@ func concurrentSame(w *core.W, key string, n int, f func(i int) string) {
 	for i := range want {
 		want[i] = call(i)
 	}
+	// a second serial pass in the opposite order: an answer that depends on what was asked before
+	// (a cache keyed by too little, a pooled buffer that is not reset) shows without any concurrency
+	for i := n - 1; i >= 0; i-- {
+		if got := call(i); got != want[i] {
+			w.Violation(strings.Replace(key, "/concurrent-use-differs/", "/repeated-call-differs/", 1), fmt.Sprintf("input %d: first call %.200q, the same call again (after %d others) %.200q", i, want[i], n, got), nil)
+			return
+		}
+	}
 	var bad atomic.Int32
 	var first atomic.Value
 	var wg sync.WaitGroup
